@@ -320,7 +320,7 @@ pub fn drain_forget_plain<const N: usize, const P: u32, S: Src>(s: &mut S) {
 
 /// `Drain` through the adaptor-style `Iterator` methods (`nth`, `nth_back`, `count`, `last`): whatever the type
 /// overrides, or the default implementations, must take every skipped element out of the drain and destroy it
-pub fn drain_adaptors<const N: usize, const P: u32, S: Src>(s: &mut S) {
+pub fn drain_adaptors<const N: usize, const KIND: usize, const P: u32, S: Src>(s: &mut S) {
     let St { mut buf, mut m, len, .. } = build::<N, S>(s);
     let a = s.usize();
     let b = s.usize();
@@ -343,12 +343,12 @@ pub fn drain_adaptors<const N: usize, const P: u32, S: Src>(s: &mut S) {
                 held.push(t.hold());
             }
         }
-        let kind = s.u8();
-        s.assume(kind < 4);
+        // KIND (compile time): 0 nth, 1 nth_back, 2 count, 3 last
+        let kind = KIND;
         let skip = s.usize();
         s.assume(skip <= 2);
         let avail = hi - lo;
-        cov!(kind == 0 && skip > 0 && skip < avail, "drain.nth(k) skipping some but not all remaining elements");
+        cov!(skip > 0 && skip < avail, "drain adaptor skipping some but not all remaining elements");
         match kind {
             0 | 1 => {
                 let t = if kind == 0 { d.nth(skip) } else { d.nth_back(skip) };
